@@ -184,6 +184,7 @@ type c03Case struct {
 	Seeds     int    `json:"seeds"`
 	Assets    int    `json:"assets"`
 	Links     int    `json:"links"` // outlinks per page; > 0 implies --max-hops 1
+	After     string `json:"after,omitempty"` // what the stalled request gets after the stop: "" | 429 | drop
 	Moment    string `json:"moment"` // arrival | midbody | complete | idle | hook | paused
 	K         int    `json:"k"`      // request number / hit number
 	Point     string `json:"point,omitempty"`
@@ -208,6 +209,12 @@ func genC03(t *rapid.T) c03Case {
 	}
 	total := c.Seeds * (1 + c.Assets)
 	c.K = rapid.IntRange(1, max(1, min(total, 6))).Draw(t, "k")
+	if c.Moment == "arrival" || c.Moment == "midbody" {
+		c.After = []string{"", "429", "drop", "drop"}[rapid.IntRange(0, 3).Draw(t, "after")]
+		if c.Moment == "midbody" && c.After == "429" {
+			c.After = "drop"
+		}
+	}
 	if c.Moment == "hook" || c.Moment == "paused" {
 		c.Point = c03Points[rapid.IntRange(0, len(c03Points)-1).Draw(t, "point")]
 		c.K = rapid.IntRange(1, 3).Draw(t, "hookn")
@@ -265,6 +272,7 @@ func runC03(t veriflib.TB, c c03Case) (res c03Result) {
 		t.Fatalf("harness: origin: %v", err)
 	}
 	o.Links = c.Links
+	o.AfterStall = c.After
 	defer o.Close()
 	var px *Socks5
 	proxyURL := ""
@@ -440,7 +448,7 @@ func propC03(t veriflib.TB, c c03Case) {
 		veriflib.Fail(t, "C03", "C03/proc", c, res, "%s", res.Viol)
 	}
 	cl := []string{"moment:" + c.Moment, fmt.Sprintf("workers:%d", c.Workers), fmt.Sprintf("pool:%d", c.Pool), fmt.Sprintf("proxy:%v", c.Proxy),
-		fmt.Sprintf("async:%v", c.Async), fmt.Sprintf("ratelimit:%v", c.RateLimit), fmt.Sprintf("seencheck:%v", c.Seencheck), fmt.Sprintf("maxretry:%d", c.MaxRetry), fmt.Sprintf("links:%d", c.Links)}
+		fmt.Sprintf("async:%v", c.Async), fmt.Sprintf("ratelimit:%v", c.RateLimit), fmt.Sprintf("seencheck:%v", c.Seencheck), fmt.Sprintf("maxretry:%d", c.MaxRetry), fmt.Sprintf("links:%d", c.Links), "after:" + c.After}
 	if c.Point != "" {
 		cl = append(cl, "point:"+c.Point)
 	}
@@ -458,6 +466,22 @@ func TestVerif_C03_Proc(t *testing.T) {
 		return
 	} else if veriflib.Replaying() {
 		t.Skip()
+	}
+	// one directed case per shard (stop during a fetch that then fails / while paused mid-seed with outlinks pending)
+	{
+		i := veriflib.ShardIndex()
+		d := c03Case{Workers: []int{1, 3}[i%2], Pool: 1 + i%2, Seencheck: true, MaxRetry: i % 2, Seeds: 2 + i%3, Assets: 1 + i%2, Async: i%5 == 4, RateLimit: i%3 == 0, Proxy: i%6 == 5}
+		switch i % 4 {
+		case 0:
+			d.Moment, d.K, d.After = "midbody", 1+i%3, "drop"
+		case 1:
+			d.Moment, d.K, d.After = "arrival", 1+i%3, "429"
+		case 2:
+			d.Moment, d.K, d.Point, d.Links = "paused", 1, "postprocessor.outlinks", 12
+		default:
+			d.Moment, d.K, d.After = "arrival", 2, "drop"
+		}
+		propC03(t, d)
 	}
 	rapid.Check(t, func(rt *rapid.T) {
 		c := genC03(rt)
@@ -486,7 +510,7 @@ func genC04(t *rapid.T) c04Case {
 		Rows:    rapid.IntRange(5, 30).Draw(t, "rows"),
 		Workers: rapid.IntRange(1, 4).Draw(t, "workers"),
 		Assets:  rapid.IntRange(0, 2).Draw(t, "assets"),
-		Fault:   []string{"kill-hook", "kill-hook", "kill-hook", "term-hook", "kill-arrival", "kill-complete", "term-arrival"}[rapid.IntRange(0, 6).Draw(t, "fault")],
+		Fault:   []string{"kill-hook", "kill-hook", "kill-hook", "term-hook", "kill-arrival", "kill-complete", "term-arrival", "term-cdx-kill", "term-cdx-kill"}[rapid.IntRange(0, 8).Draw(t, "fault")],
 		Second:  rapid.IntRange(0, 4).Draw(t, "second") == 0,
 	}
 	c.Point = c04Points[rapid.IntRange(0, len(c04Points)-1).Draw(t, "point")]
@@ -532,6 +556,12 @@ func lqRows(dbPath string) ([]lqRow, error) {
 }
 
 func c04Args(c c04Case, o *Origin) []string {
+	if c.Fault == "term-cdx-kill" {
+		// the origin also plays a (slow) CDX dedupe server: every WARC write first asks it about the payload
+		return []string{"get", "url", o.URL("/boot"), "--job", "j1", "--workers", "1", "--max-concurrent-assets", "2", "--max-retry", "0",
+			"--min-space-required", "0.001", "--log-level", "debug", "--no-log-file", "--disable-rate-limit", "--disable-seencheck",
+			"--warc-cdx-dedupe-server", "http://" + o.Addr(), "--warc-dedupe-size", "64"}
+	}
 	return []string{"get", "url", o.URL("/boot"), "--job", "j1", "--workers", fmt.Sprint(c.Workers), "--max-concurrent-assets", "2",
 		"--max-retry", "0", "--min-space-required", "0.001", "--log-level", "debug", "--no-log-file", "--disable-rate-limit", "--disable-seencheck"}
 }
@@ -593,6 +623,8 @@ func runC04(t veriflib.TB, c c04Case) (res c04Result) {
 		o.StallK, o.StallPhase = c.N+1, "arrival" // +1: request #1 is usually the boot seed
 	case "kill-complete":
 		o.StallK, o.StallPhase = c.N+1, "complete"
+	case "term-cdx-kill":
+		o.CDXStallK = c.N%8 + 2
 	}
 	ch, err := startChild(dir, c04Args(c, o), env...)
 	if err != nil {
@@ -614,6 +646,27 @@ func runC04(t veriflib.TB, c c04Case) (res c04Result) {
 		if !ch.waitExit(40*time.Second, progress) {
 			// the hook point was never reached (n too large for this queue): fall back to a kill when idle
 			res.Skipped = "fault point not reached: killed when idle"
+			ch.cmd.Process.Kill()
+			<-ch.done
+		}
+	case "term-cdx-kill":
+		// a graceful stop lands while a fetched URL waits for its WARC write (held back by the CDX lookup); the process
+		// is then killed before the write can land (a second Ctrl-C, or an impatient supervisor)
+		select {
+		case held := <-o.CDXEvent:
+			before, _ := lqRows(dbPath)
+			ch.cmd.Process.Signal(syscall.SIGTERM)
+			waitFor(6*time.Second, func() bool {
+				now, err := lqRows(dbPath)
+				return err == nil && len(now) < len(before)
+			})
+			ch.cmd.Process.Kill()
+			<-ch.done
+			close(o.CDXRelease)
+			_ = held
+		case <-ch.done:
+		case <-time.After(40 * time.Second):
+			res.Skipped = "fault moment not reached: killed when idle"
 			ch.cmd.Process.Kill()
 			<-ch.done
 		}
@@ -813,6 +866,12 @@ func TestVerif_C04_Proc(t *testing.T) {
 		return
 	} else if veriflib.Replaying() {
 		t.Skip()
+	}
+	// one directed case per shard: the multi-step fault kinds are too rare to rely on random draws in the quick tier
+	if i := veriflib.ShardIndex(); i%2 == 0 {
+		propC04(t, c04Case{Rows: 6 + i, Workers: 1, Assets: 1 + i%2, Fault: "term-cdx-kill", N: i / 2})
+	} else {
+		propC04(t, c04Case{Rows: 10 + i, Workers: 1 + i%3, Assets: i % 2, Fault: "term-arrival", N: 2 + i})
 	}
 	rapid.Check(t, func(rt *rapid.T) {
 		c := genC04(rt)
